@@ -80,7 +80,15 @@ fn build_a(d: &TlDesc) -> ATimeline {
     TimelineBuilder::build(b)
 }
 
-#[derive(Clone, Copy, Debug, Default, PartialEq, Eq, Hash)]
+// A perfectly valid key type whose Hash is coarser than its Eq (K0/K1 collide, K2/K3 collide):
+// selector code must compare keys, not hashes.
+impl std::hash::Hash for K {
+    fn hash<H: std::hash::Hasher>(&self, state: &mut H) {
+        state.write_u8(*self as u8 / 2);
+    }
+}
+
+#[derive(Clone, Copy, Debug, Default, PartialEq, Eq)]
 pub enum K {
     #[default]
     K0,
@@ -136,6 +144,11 @@ impl World1 {
         let startup = app.world.resource::<Time>().startup();
         app.world.resource_mut::<Time>().update_with_instant(startup);
         World1 { app, entity, now: startup, reader: ManualEventReader::default() }
+    }
+    /// the frame delta the game clock reports (differs from the wall-clock step when the clock is
+    /// paused or runs at another relative speed)
+    fn last_delta(&self) -> Duration {
+        self.app.world.resource::<Time>().delta()
     }
     fn frame(&mut self, delta_ns: u64) -> Vec<(Entity, AnimationState)> {
         self.now += Duration::from_nanos(delta_ns);
@@ -336,6 +349,8 @@ pub enum BOp {
     Reset,
     /// install the main (false) or the other (true) timeline
     SetTimeline(bool),
+    /// game clock: 0 = pause, 1 = unpause, 2 = half speed, 3 = double speed, 4 = normal speed
+    Clock(u8),
 }
 
 #[derive(Clone, Debug, Serialize, Deserialize)]
@@ -372,6 +387,7 @@ fn c18_strategy() -> impl Strategy<Value = C18Case> {
         1 => Just(BOp::Disable),
         1 => Just(BOp::Reset),
         1 => any::<bool>().prop_map(BOp::SetTimeline),
+        1 => (0u8..5).prop_map(BOp::Clock),
     ];
     (
         desc::tl_strategy_animator(bevy_timing_strategy()),
@@ -385,7 +401,7 @@ fn c18_strategy() -> impl Strategy<Value = C18Case> {
         .prop_map(|(tl, other, with_timeline, start_disabled, start, ops, bystanders)| C18Case { bystanders, tl, other, with_timeline, start_disabled, start, ops })
 }
 
-const C18_LABELS: [&str; 13] = ["reached_ended", "frame_skipped_a_phase", "zero_frame", "disabled_frames", "reset_used", "set_timeline_used", "infinite", "exact_end_decision", "near_band", "playing_evaluated", "delayed", "no_timeline_start", "idle_bystander_first"];
+const C18_LABELS: [&str; 14] = ["reached_ended", "frame_skipped_a_phase", "zero_frame", "disabled_frames", "reset_used", "set_timeline_used", "infinite", "exact_end_decision", "near_band", "playing_evaluated", "delayed", "no_timeline_start", "idle_bystander_first", "clock_paused_or_scaled"];
 
 fn c18_judge(c: &C18Case, obs: &mut Obs) -> Result<(), String> {
     let mut app = App::new();
@@ -436,13 +452,25 @@ fn c18_judge(c: &C18Case, obs: &mut Obs) -> Result<(), String> {
                 cur = Some(TlInForce::new(d, None));
                 obs.label(5);
             }
+            BOp::Clock(k) => {
+                let mut time = w.app.world.resource_mut::<Time>();
+                match k % 5 {
+                    0 => time.pause(),
+                    1 => time.unpause(),
+                    2 => time.set_relative_speed(0.5),
+                    3 => time.set_relative_speed(2.0),
+                    _ => time.set_relative_speed(1.0),
+                }
+                obs.label(13);
+            }
             BOp::Frame(sel) => {
                 let dns = DELTAS_NS[sel as usize % DELTAS_NS.len()];
-                let delta = Duration::from_nanos(dns);
                 obs.label_if(2, dns == 0);
                 let (st0, pos0, en0) = w.animator_a();
                 let comp0 = w.comp();
                 let events = w.frame(dns);
+                // "each frame's delta" is the game clock's delta
+                let delta = w.last_delta();
                 let (st1, pos1, _) = w.animator_a();
                 let comp1 = w.comp();
                 obs.label_if(3, !en0);
@@ -540,7 +568,7 @@ pub struct C19Case {
 }
 
 fn c19_strategy() -> impl Strategy<Value = C19Case> {
-    let finite_timing = (prop::sample::select(vec![0.25f32, 0.5, 1.0, 1.5, 3.0]), prop_oneof![3 => Just(0.0f32), 1 => prop::sample::select(vec![0.125f32, 0.5])], prop_oneof![4 => Just(Rep::None), 1 => Just(Rep::Times(1)), 1 => Just(Rep::Infinite)], any::<bool>())
+    let finite_timing = (prop::sample::select(vec![0.25f32, 0.5, 1.0, 1.5, 3.0, 0.5625, 0.28125]), prop_oneof![3 => Just(0.0f32), 1 => prop::sample::select(vec![0.125f32, 0.5])], prop_oneof![4 => Just(Rep::None), 1 => Just(Rep::Times(1)), 1 => Just(Rep::Infinite)], any::<bool>())
         .prop_map(|(cycle, delay, repeat, reverse)| Timing { cycle, delay, repeat, reverse });
     let op = prop_oneof![
         10 => prop_oneof![6 => 0u8..5, 2 => 5u8..14].prop_map(SOp::Frame),
